@@ -28,7 +28,7 @@ from .canon import canon
 from .events import LAZY_GROUPS
 
 GROUP_ORDER = ["mass", "density", "covalent_radius", "crystal_structure", "neutron",
-               "activation", "xray", "emission", "magnetic_ff", "routes", "calc"]
+               "activation", "xray", "emission", "magnetic_ff", "routes", "calc", "calc_public"]
 
 INIT_ENTRIES = {
     "mass": ("periodictable.mass", "init"),
@@ -509,8 +509,15 @@ class Node(object):
                       "K_alpha_units", "magnetic_ff"):
                 g(keys, "%d/%d/%d.%s" % (Z, A, q, n), lambda: getattr(a(), n))
 
+    def dg_calc_public(self, tbl, t, keys):
+        """Calculators that by design only know the public table (fasta); never claimed for a private one."""
+        self._battery(tbl, keys, [ev for ev in CALC_BATTERY if ev[0].startswith("fasta")])
+
     def dg_calc(self, tbl, t, keys):
-        for ev in CALC_BATTERY:
+        self._battery(tbl, keys, [ev for ev in CALC_BATTERY if not ev[0].startswith("fasta")])
+
+    def _battery(self, tbl, keys, battery):
+        for ev in battery:
             k = C.dumps(ev)
             try:
                 buf = io.StringIO()
